@@ -16,6 +16,8 @@ const (
 	gRdPos    = "G:rd#pos"    // reader id -> bytes delivered so far
 	gAtomic   = "G:atomic64"  // pointer ref -> value
 	gKsPos    = "G:ks#pos"    // cipher.Stream id -> keystream bytes consumed
+	gChanClosed  = "G:chan#closed"  // channel id -> close(ch) has been executed
+	gChanDrained = "G:chan#drained" // channel id -> a range loop over ch has run to completion
 )
 
 func (v *Verifier) ghostHeap(st *State, key string) *Term {
@@ -27,6 +29,8 @@ func (v *Verifier) ghostHeap(st *State, key string) *Term {
 		s = ArraySort(IntSort, ArraySort(IntSort, BVSort(8)))
 	case gAtomic:
 		s = ArraySort(IntSort, BVSort(64))
+	case gChanClosed, gChanDrained:
+		s = ArraySort(IntSort, BoolSort)
 	case gBigBits:
 		s = ArraySort(IntSort, ArraySort(IntSort, BoolSort))
 	case gBigVal:
@@ -144,6 +148,10 @@ func (v *Verifier) ghostBuiltin(fr *Frame, st *State, name string, x *ast.CallEx
 		v.needIntIdx(x.Pos(), name)
 		k := v.toIdx(v.coerce(v.evalSpec(fr, st, x.Args[1]), intT), x.Pos())
 		return Scalar{c.App("ghost$inByte", BVSort(8), id(x.Args[0]), k), types.Typ[types.Uint8]}, true
+	case "closedCh": // closedCh(ch): close(ch) has been executed
+		return Scalar{c.Select(v.ghostHeap(st, gChanClosed), id(x.Args[0])), types.Typ[types.Bool]}, true
+	case "drainedCh": // drainedCh(ch): a range loop over ch has run until the channel was closed and empty
+		return Scalar{c.Select(v.ghostHeap(st, gChanDrained), id(x.Args[0])), types.Typ[types.Bool]}, true
 	case "rlen": // rlen(rd): total number of bytes a bytes.Reader holds
 		v.needIntIdx(x.Pos(), name)
 		return Scalar{c.App("ghost$rdLen", IntSort, id(x.Args[0])), intT}, true
